@@ -686,6 +686,8 @@ func runCase(c Case) *vt.Outcome {
 		if r := runOnePost(seq, src, true, nil, noJoinDirs); r.stage == "" && compare(plain.vals, r.vals) == "" {
 			known := "C07/sortkey-join/presorted-side-differs"
 			switch {
+			case countRE(opt.dag, `"input_sort_dir":-?1`) > 0:
+				known = "C07/sortkey-join/streaming-summarize-output-taken-for-sorted"
 			case strings.Contains(opt.dag, `"nullsfirst":true`):
 				known = "C07/sortkey-join/sort-nulls-first-taken-for-sorted"
 			case strings.Contains(opt.dag, `_dir":"desc"`) && keyHasNullOrMissing(c):
